@@ -48,6 +48,7 @@ def explore(system, tally: Tally, max_states=None, max_depth=None, initial=((),)
     transitions = 0
     maxd = 0
     capped = False
+    state_capped = False
     while frontier:
         hist = frontier.popleft()
         maxd = max(maxd, len(hist))
@@ -77,6 +78,7 @@ def explore(system, tally: Tally, max_states=None, max_depth=None, initial=((),)
             if k not in seen:
                 if max_states is not None and len(seen) >= max_states:
                     capped = True
+                    state_capped = True
                     continue
                 seen[k] = hist + (op,)
                 frontier.append(hist + (op,))
@@ -85,7 +87,9 @@ def explore(system, tally: Tally, max_states=None, max_depth=None, initial=((),)
     tally.counts["max_depth"] = max(tally.counts.get("max_depth", 0), maxd)
     if capped:
         tally.add("capped_configs")
+    if state_capped:
+        tally.add("state_capped_configs")
     hs = sorted(seen.values(), key=len)
     if hs:
         tally.sample({"config": system.config, "history_reaching_deepest_state": list(hs[-1])})
-    return {"states": len(seen), "transitions": transitions, "max_depth": maxd, "fixpoint": not capped}
+    return {"states": len(seen), "transitions": transitions, "max_depth": maxd, "fixpoint": not capped, "state_capped": state_capped}
